@@ -599,6 +599,16 @@ class C05(Property):
                                hist=[sv(2, who=1), mv, sv(3, who=0), moves[1], sv(4, who=1)])
                     yield dict(mk(perms=perms, dm=dm, plan=[], txt=1), alt={'perms': alt, 'ow': 0},
                                hist=[mv, sv(2, who=1), ['d'], sv(3, who=1), sv(4, who=0)])
+        # f. the part file name changes hands between the uses: a part file left behind by another (crashed) saver appears,
+        #    is removed again - "never reused or overwritten unless overwrite_part" holds at the time of EACH save
+        stale = ['P', 0o600, b'foreign-part'.hex()]
+        for owp, rm, ow, dm in itertools.product((0, 1), (1, 0), (1, 0), (None, 0o644)):
+            base = mk(ow=ow, owp=owp, rm=rm, dm=dm, plan=[])
+            yield dict(base, hist=[stale, sv(2), ['Q'], sv(3)])
+            yield dict(base, hist=[stale, sv(2, who='n'), sv(3), moves[0], ['Q'], sv(4)])
+            if ow:
+                yield dict(base, raises=1, hist=[stale, sv(2), sv(3, raises=1), ['Q'], sv(4)])
+                yield dict(base, hist=[stale, sv(2, plan=[[0, errno.EIO]]), ['Q'], stale, sv(3), ['Q'], sv(4)])
         # e. every single fault position of the SECOND save of a history (and of the third)
         sel = [(mk(dm=0o644, plan=[]), moves[0]), (mk(dm=None, plan=[]), moves[4]), (mk(dm=0o600, perms=0o640, plan=[]), moves[2]),
                (mk(ow=0, dm=None, plan=[]), moves[2]), (mk(dm=0o644, txt=1, plan=[]), moves[3])]
@@ -626,7 +636,7 @@ class C05(Property):
                 mv = rng.choice(self.ENV_MOVES + [['c', rng.choice([0o400, 0o640, 0o666, 0o1644, 0o777, 0])],
                                                   ['u', rng.choice([0o022, 0o077, 0o002])],
                                                   ['p', rng.choice([0o600, 0o644, 0o660]), bytes([rng.randrange(65, 91)] * rng.choice([1, 5])).hex()]])
-                h.append(list(mv))
+                h.append(list(mv) if rng.random() < 0.85 else rng.choice([['P', 0o600, b'foreign-part'.hex()], ['Q']]))
             if r >= 0.3 or not h:
                 k += 1
                 plan = []
@@ -779,10 +789,10 @@ class C05(Property):
         for st, so in zip(case['hist'], obs['steps']):
             if st[0] == 's':
                 words.append(sv(so, list(st[1].get('ops') or []), st[1].get('raises', 0)))
-            elif st[0] == 'p':
-                words.append('E/p%d:%s' % (st[1], st[2]))
-            elif st[0] == 'd':
-                words.append('E/d')
+            elif st[0] in 'pP':
+                words.append('E/%s%d:%s' % (st[0], st[1], st[2]))
+            elif st[0] in 'dQ':
+                words.append('E/' + st[0])
             else:
                 words.append('E/%s%d' % (st[0], st[1]))
         return ' '.join(words)
@@ -895,7 +905,8 @@ class C05(Property):
     def run_history(self, fu, d, dest, part, case, obs):
         """a history: the case's own save, then the steps of case['hist'] on the same directory - the world changes
         (['c', mode] the destination is chmod-ed, ['d'] deleted, ['p', mode, hex] replaced by another writer's file,
-        ['u', umask] the process umask changes) and further saves (['s', {who, ops, raises, plan}]: `who` = 0 the SAME
+        ['u', umask] the process umask changes, ['P', mode, hex] a part file appears under the part name, ['Q'] it is removed)
+        and further saves (['s', {who, ops, raises, plan}]: `who` = 0 the SAME
         long-lived AtomicSaver object as the first save, 1 = a second long-lived object (configuration overrides `alt`),
         'n' = a fresh object).  The state each save starts from is measured (not predicted) just before it."""
         holders = {0: {}, 1: {}}
@@ -933,6 +944,15 @@ class C05(Property):
             elif kind == 'u':
                 um = st[1]
                 os.umask(um)
+            elif kind == 'P':
+                if os.path.lexists(part):
+                    os.unlink(part)
+                with open(part, 'wb') as f:
+                    f.write(b'' if st[2] == '-' else bytes.fromhex(st[2]))
+                os.chmod(part, st[1])
+            elif kind == 'Q':
+                if os.path.lexists(part):
+                    os.unlink(part)
             steps.append({'env': kind, 'dest': look(dest), 'part': look(part)})
 
     def one_save(self, fu, d, dest, kw, ops, raises, plan, txt, rel=None, chdir_to=None, holder=None, cloexec=False):
@@ -1094,8 +1114,9 @@ class C05(Property):
         told = ['save #1']
         for st, so in zip(case['hist'], obs['steps']):
             if st[0] != 's':
-                told.append('destination deleted' if st[0] == 'd' else
-                            ('chmod %o', 'destination replaced by another writer (mode %o)', 'umask %o')['cpu'.index(st[0])] % st[1])
+                told.append('destination deleted' if st[0] == 'd' else 'part file removed' if st[0] == 'Q' else
+                            ('chmod %o', 'destination replaced by another writer (mode %o)', 'umask %o',
+                             'a part file (mode %o) appears')['cpuP'.index(st[0])] % st[1])
                 if ((st[0] == 'd' and so['dest'] is not None) or (st[0] == 'p' and so['dest'] != [st[1], st[2]])
                         or (st[0] == 'c' and so['dest'] is not None and so['dest'][0] != st[1])):
                     self.stats['env-skipped'] = self.stats.get('env-skipped', 0) + 1
